@@ -23,6 +23,12 @@ def main():
     extra = os.path.join(ROOT, "tools", "manifest_entries.json")
     if os.path.exists(extra):
         E.update(json.load(open(extra)))
+    # texts appended to an entry's claim (the translator ties added after the entries were written)
+    app = os.path.join(ROOT, "tools", "manifest_append.json")
+    if os.path.exists(app):
+        for k, v in json.load(open(app)).items():
+            if k in E and v.strip() not in E[k]["text"]:
+                E[k] = dict(E[k], text=E[k]["text"].rstrip() + v)
     props = [json.loads(l)["id"] for l in open(os.path.join(ROOT, "properties.jsonl"))]
     checks = []
     for pid in props:
